@@ -24,6 +24,10 @@ package main
 //   loopOver printed E
 //   gets     arguments of every one-argument `.Get(a)` call in that loop's body (which sender's
 //            message the loop body inspects)
+//   loops    printed range expressions of ALL enclosing `for … := range E` loops, innermost first: a
+//            check that must hold for every component of a vector (one per MSP row of the sender)
+//            sits in a loop over the row keys (`for i, pki := range partialPublicKey`); an aggregate
+//            form of the same check (one call on sums) has no such loop
 //
 // Props/C04.lean states, per round function of every modelled protocol, which guards must exist
 // (matched by role: function + callee chain + argument, never by line) and that each is tagged with
@@ -67,6 +71,7 @@ type ciSite struct {
 	tag, loopVar, loopOver   string
 	abort                    bool
 	pos                      string
+	loops                    []string
 }
 
 type ciLoop struct {
@@ -280,6 +285,11 @@ func (w *ciWalker) stmt(st, prev ast.Stmt, loops []ciLoop, guards []ciGuard) {
 		if pick >= 0 {
 			site.loopVar, site.loopOver, site.gets = loops[pick].key, loops[pick].over, loops[pick].gets
 		}
+		for i := len(loops) - 1; i >= 0; i-- {
+			if loops[i].over != "" {
+				site.loops = append(site.loops, loops[i].over)
+			}
+		}
 		*w.sites = append(*w.sites, site)
 	}
 }
@@ -347,6 +357,7 @@ structure Site where
   loopVar : Str
   loopOver : Str
   gets : List Str
+  loops : List Str
   deriving DecidableEq, Repr
 
 `)
@@ -363,8 +374,8 @@ structure Site where
 		for k := i; k < j; k++ {
 			s := sites[k]
 			rel := strings.TrimPrefix(s.pos, repo+"/")
-			fmt.Fprintf(&b, "  -- %s\n  { proto := %s, fn := %s, calls := %s, args := %s, negs := %s, tag := %s, abort := %v, loopVar := %s, loopOver := %s, gets := %s }",
-				rel, ciCps(s.proto), ciCps(s.fn), ciCpsList(s.calls), ciCpsList(s.args), ciCpsList(s.negs), ciCps(s.tag), s.abort, ciCps(s.loopVar), ciCps(s.loopOver), ciCpsList(s.gets))
+			fmt.Fprintf(&b, "  -- %s\n  { proto := %s, fn := %s, calls := %s, args := %s, negs := %s, tag := %s, abort := %v, loopVar := %s, loopOver := %s, gets := %s, loops := %s }",
+				rel, ciCps(s.proto), ciCps(s.fn), ciCpsList(s.calls), ciCpsList(s.args), ciCpsList(s.negs), ciCps(s.tag), s.abort, ciCps(s.loopVar), ciCps(s.loopOver), ciCpsList(s.gets), ciCpsList(s.loops))
 			if k+1 < j {
 				b.WriteString(",")
 			}
